@@ -79,13 +79,10 @@ func RedirectedURL(orig *http.Request, requestedUrl *url.URL, redir *url.URL) *u
 			}
 			return newUrl
 		} else {
-			splitBy := func(c rune) bool {
-				return c == '/'
-			}
-			origSplat := strings.FieldsFunc(orig.URL.Path, splitBy)
+			// RFC 3986 5.2.3: the reference replaces what follows the last "/" of the base path
 			var newPath string
-			if len(origSplat) > 1 {
-				newPath = "/" + strings.Join(origSplat[:len(origSplat)-1], "/") + redir.Path
+			if len(orig.URL.Path) > 0 {
+				newPath = orig.URL.Path[:strings.LastIndex(orig.URL.Path, "/")+1] + redir.Path
 			} else {
 				newPath = "/" + redir.Path
 			}
